@@ -35,6 +35,17 @@ def _verify_one(args):
                     "solver_queries": 0, "solver_time_s": 0, "file": "", "line": 0}
         eng = Engine(P, SP, reg, SolverFront(timeout_ms=timeout_ms), c, fi)
         res = eng.verify()
+        res["mode"] = "merged"
+        und = [o for o in res["obligations"] if o.status not in ("unsat", "sat")]
+        if und:
+            # undecided VCs: redo the function path by path (no state merging) -- smaller formulas per VC
+            eng2 = Engine(P, SP, reg, SolverFront(timeout_ms=timeout_ms), c, fi, opts={"merge": False})
+            res2 = eng2.verify()
+            und2 = [o for o in res2["obligations"] if o.status not in ("unsat", "sat")]
+            if len(und2) < len(und) or any(o.status == "sat" for o in res2["obligations"]):
+                res2["mode"] = "split (merged run left %d VCs undecided)" % len(und)
+                res2["time_s"] += res["time_s"]
+                res = res2
         res["obligations"] = [o.to_json() for o in res["obligations"]]
         res["error"] = None
         return res
